@@ -110,7 +110,7 @@ func sigOf(bad, text string) string {
 }
 
 func run(c *core.Ctx) {
-	c.R.Rule = "case = a text: (a) every token sequence over each alphabet explored by viable-prefix DFS (a prefix is extended while the model OR the library still considers it viable), (a') every sequence up to 4 tokens over the full alphabet without pruning, (b) every byte string up to the bound over a 23-byte alphabet (quotes, backslash, #, CR, LF, comma, dot, digits, e, u, braces, the bytes of e-acute and of the BOM, tab) alone and inside `{ }`; non-trivial = accepted by library or model; distinct texts"
+	c.R.Rule = "case = a text: (a) every token sequence over each alphabet explored by viable-prefix DFS (a prefix is extended while the model OR the library still considers it viable), (a') every sequence up to 4 tokens over the full alphabet without pruning, (e) every text within two token edits (delete / replace / insert / adjacent swap over the full token alphabet; the second edit within a window after the first) of 18 long grammar-derived sentences that span all productions, (b) every byte string up to the bound over a 23-byte alphabet (quotes, backslash, #, CR, LF, comma, dot, digits, e, u, braces, the bytes of e-acute and of the BOM, tab) alone and inside `{ }`; non-trivial = accepted by library or model; distinct texts"
 	c.R.Assumptions = []string{"M-syntax (verif/h/msyntax) is the target grammar of DESIGN.md appendix A", "tokens are separated by single spaces in (a); layouts are varied by C18", "Go toolchain"}
 	qi := 0
 	if !c.Quick() {
@@ -136,6 +136,30 @@ func run(c *core.Ctx) {
 			c.Mismatch(fid, sigOf(bad, string(text)), fmt.Sprintf("%q: %s", text, bad), map[string]interface{}{"text": string(text)})
 		}
 		return ext
+	}
+	// (e) neighbourhoods of long sentences: every single token edit everywhere, every pair
+	// of edits within a window
+	if !c.Expired() {
+		window := c.Pick(1, 3)
+		alpha2 := langx.ReducedEditAlphabet
+		if !c.Quick() {
+			alpha2 = langx.EditAlphabet
+		}
+		c.R.Bounds["corpus_sentences"] = len(langx.Corpus)
+		c.R.Bounds["corpus_edit_distance"] = 2
+		c.R.Bounds["corpus_second_edit_window"] = window
+		seedOK := map[int]bool{}
+		langx.Neighbourhood(window, c.Shard, c.NShards, alpha2, func(seed int, toks []string, text []byte) {
+			visitText("corpus-edits", toks, text)
+		})
+		for si, s := range langx.Corpus {
+			if _, mv, _ := langx.Model([]byte(s)); mv.OK {
+				seedOK[si] = true
+			}
+		}
+		if len(seedOK) != len(langx.Corpus) {
+			panic(fmt.Sprintf("corpus: only %d of %d seed sentences are derivable from the model grammar", len(seedOK), len(langx.Corpus)))
+		}
 	}
 	// (a') unpruned, short
 	unpruned := c.Pick(3, 4)
